@@ -1639,3 +1639,7 @@ cdef class NNPS(NNPSBase):
         for name, arr in pa.properties.items():
             stride = pa.stride.get(name, 1)
             arr.c_align_array(indices, stride)
+
+        # The spatial order mixes local and ghost/remote particles; restore
+        # the invariant that the real particles come first.
+        pa.align_particles()
